@@ -204,6 +204,8 @@ pub struct World {
     pub pairs: Vec<PairRec>,
     pub actors: Vec<Addr>,
     pub bystanders: Vec<Addr>,
+    /// the decimals currently registered for each native denom (follows successful re-registrations)
+    pub native_decimals_now: Vec<u8>,
 }
 
 pub fn actor_addr(i: usize) -> Addr {
@@ -554,7 +556,7 @@ impl World {
     }
     pub fn asset_decimals(&self, a: AssetId) -> u8 {
         match a {
-            AssetId::Native(i) => self.cfg.native_decimals[i],
+            AssetId::Native(i) => self.native_decimals_now[i],
             AssetId::Token(i) => self.tokens[i].decimals,
         }
     }
@@ -653,6 +655,13 @@ impl World {
         // LP tokens of pairs created during this very step are not yet known to is_cw20; the caller
         // (factory-level code) re-syncs pairs afterwards. For diffing use code ids from the registry.
         let changes = diff_snapshots(&before, &after, &|a| self.is_cw20(a));
+        if outcome.is_ok() {
+            if let Call::Factory { msg: haloswap::factory::ExecuteMsg::AddNativeTokenDecimals { denom, decimals } } = &step.call {
+                if let Some(i) = self.natives.iter().position(|d| d == denom) {
+                    self.native_decimals_now[i] = *decimals;
+                }
+            }
+        }
         StepRecord { step, outcome, changes, before, after }
     }
 
@@ -679,6 +688,7 @@ impl World {
             pairs: self.pairs.clone(),
             actors: self.actors.clone(),
             bystanders: self.bystanders.clone(),
+            native_decimals_now: self.native_decimals_now.clone(),
         }
     }
 
@@ -752,7 +762,7 @@ impl World {
                 .map_err(e)?;
             tokens.push(TokenRec { addr, decimals: *dec });
         }
-        let mut w = World { app, codes, cfg: cfg.clone(), owner, factory, router, proxy, natives, tokens, pairs: vec![], actors, bystanders };
+        let mut w = World { app, codes, cfg: cfg.clone(), owner, factory, router, proxy, natives, tokens, pairs: vec![], actors, bystanders, native_decimals_now: cfg.native_decimals.clone() };
         for pc in cfg.pairs.clone() {
             w.create_pair(&pc)?;
         }
